@@ -7,9 +7,9 @@ import re
 import mir
 
 
-def arg_slice(E, name):
-    body = E.prog.find("src/config.rs", "Config", "apply_arg_matches").parse()
-    ga = mir.struct_fields("GlobalArgs", "src/config.rs")
+def arg_slice(E, name, func="apply_arg_matches", struct="GlobalArgs"):
+    body = E.prog.find("src/config.rs", "Config", func).parse()
+    ga = mir.struct_fields(struct, "src/config.rs")
     ia = ga.index(name)
     start = local = end = None
     for bb, blk in body.blocks.items():
@@ -56,18 +56,18 @@ def arg_leaves(p, local, ia):
     return ad, pay
 
 
-def check_cli_number(res, E, mprop, name, flag, optional, consequence):
-    """A numeric option: given => the configured value becomes exactly the given number (Some(n) if the setting is
+def check_cli_number(res, E, mprop, name, flag, optional, consequence, func="apply_arg_matches", struct="GlobalArgs", cfg_name=None, accept=None):
+    """A numeric option (accept(v_after, v_given): what counts as 'applied'; default: equality): given => the configured value becomes exactly the given number (Some(n) if the setting is
     optional), absent => it stays.  Returns the number of paths checked."""
     import z3
-    sl = arg_slice(E, name)
+    sl = arg_slice(E, name, func, struct)
     if sl is None:
-        res.inconclusive.append("apply_arg_matches: the blocks handling %s were not found" % flag)
+        res.inconclusive.append("%s: the blocks handling %s were not found" % (func, flag))
         return 0
     b2, local, ia, start, end = sl
-    res.functions.append("routinator::config::Config::apply_arg_matches, slice %s..%s handling %s (MIR)" % (start, end, flag))
+    res.functions.append("routinator::config::Config::%s, slice %s..%s handling %s (MIR)" % (func, start, end, flag))
     cf = mir.struct_fields("Config", "src/config.rs")
-    ic = cf.index(name)
+    ic = cf.index(cfg_name or name)
     selfp = mir.Opq("&mut Config", "self")
     base = (("o", selfp.id), "deref", ("f", ic))
     c_d = z3.Int("configured_%s_disc" % name)
@@ -108,7 +108,7 @@ def check_cli_number(res, E, mprop, name, flag, optional, consequence):
             if av is None:
                 ok = z3.Implies(ad == 1, z3.BoolVal(False))
             else:
-                ok = z3.And(z3.Implies(ad == 1, v1 == av), z3.Implies(ad == 0, v1 == c_v))
+                ok = z3.And(z3.Implies(ad == 1, accept(v1, av) if accept else v1 == av), z3.Implies(ad == 0, v1 == c_v))
         try:
             m = E.model(p.cond, z3.Not(ok))
         except z3.Z3Exception as exc:
